@@ -83,6 +83,14 @@ def run(tier, seed):
                     nontrivial.add((nm, L, "triple"))
                     if a > b + c + 1e-9 * max(abs(a), abs(b), abs(c), 1.0):
                         bad("triangle_inequality_violated", {"x": x, "y": y, "z": z, "d_xz": a, "d_xy": b, "d_yz": c})
+                # degenerate triples (x, y, x) over neighbouring vectors of the pool (the near-identical histograms sit next to each
+                # other): d(x, x) <= d(x, y) + d(y, x) - a self-distance that is only "nearly" zero shows here
+                for k_ in range(len(vs) - 1):
+                    x, y = vs[k_], vs[k_ + 1]
+                    a, b, c = f(x, x), f(x, y), f(y, x)
+                    nev += 3
+                    if a > b + c + 1e-12 * max(abs(b), abs(c), 1e-3):
+                        bad("triangle_inequality_violated", {"x": x, "y": y, "z": x, "d_xz": a, "d_xy": b, "d_yz": c})
             # the table itself against the closed forms (spec-side consistency): zero self-distance of the reference
             if "zeroself" in claims:
                 for v in vs[:5]:
@@ -99,7 +107,7 @@ def run(tier, seed):
     rep.sample({"metric": "canberra", "domain": ax["canberra"][0], "claims": sorted(ax["canberra"][1])})
     rep.cov["evaluations"] = nev
     rep.cov["distinct_nontrivial"] = len(nontrivial)
-    rep.cov["rule"] = "per identifier and vector length (1,2,3,5): grid + zero-containing + random in-domain vectors; pairs, parallel pairs, identical vectors, triples for the 13 true metrics; distinct_nontrivial counts (metric, length, kind of case) combinations"
+    rep.cov["rule"] = "per identifier and vector length (1,2,3,5): grid + zero-containing + random in-domain vectors; pairs, parallel pairs, identical vectors, normalised histograms and near-identical pairs of them, triples (also degenerate x,y,x) for the 13 true metrics; distinct_nontrivial counts (metric, length, kind of case) combinations"
     rep.assumptions = ["axiom table fixed in Metrics.tla (Domain, Claims)", "tolerances: 1e-9 relative for symmetry / sign / triangle, 1e-6 absolute for the zero self-distance (a root of a rounding-sized difference is still zero up to rounding; NaN is not)", "sampling over the reals"]
     return rep.finish()
 
